@@ -19,7 +19,7 @@ RULE = (
 )
 BOUNDS = {
     "quick": "ggivens: all ordered pairs of 27 letters (zero, Q8, dyadic, 2^-60 Q8, generic); Hess: k<=4, all 2^k masks x zero-column positions x 2 letter kinds; solves: n<=4, nrhs<=4, 5 uniform scales + single-entry scales, 4 solvers",
-    "thorough": "same with 3 fill rows and k<=5",
+    "thorough": "same with 3 fill rows and k<=6",
 }
 WALL_BUDGET = {"quick": 300, "thorough": 1800}
 ASSUMPTIONS = [
@@ -46,7 +46,7 @@ def cases(tier, seed):
     for a in range(nlet):
         for form in ("vec", "args"):
             out.append({"key": f"grs/{a}/{form}", "grp": "grs", "a": a, "form": form})
-    K = 4 if tier == "quick" else 5
+    K = 4 if tier == "quick" else 6
     rows = 1 if tier == "quick" else 3
     for k in range(1, K + 1):
         for mask in range(1 << k):
